@@ -12,8 +12,13 @@ def _decide_single(obj: dict[str, Any], env: dict[str, Any]) -> dict[str, Any]:
 
 def _is_applicable(result: dict[str, Any]) -> bool:
     """A policy is applicable only if a concrete rule matched (has rule_id)."""
-    rid = result.get("last_rule_id") or result.get("rule_id")
-    return isinstance(rid, str) and rid != ""
+    rid = result.get("last_rule_id")
+    if rid is None:
+        rid = result.get("rule_id")
+    if not isinstance(rid, str):
+        return False
+    # an empty id is schema-valid: the rule still matched if the reason says so
+    return rid != "" or result.get("reason") in ("matched", "explicit_deny")
 
 
 def decide(policyset: dict[str, Any], env: dict[str, Any]) -> dict[str, Any]:
